@@ -6,7 +6,7 @@ PROPERTY = "C13"
 
 def tasks(tier):
     return contract_tasks("contracts.scheduler", "C13", tier=tier) + contract_tasks("contracts.sim_process", "C13", tier=tier) \
-        + contract_tasks("contracts.run_prelude", "C13", tier=tier) + contract_tasks("contracts.adapters", "C13", tier=tier) \
+        + contract_tasks("contracts.run_prelude", "C13", tier=tier) + contract_tasks("contracts.shutdown", "C13", tier=tier) + contract_tasks("contracts.adapters", "C13", tier=tier) \
         + other_tasks("contracts.faults_bounded", "C13", "bounded")
 
 
